@@ -80,7 +80,7 @@ impl Monitor for C10 {
         "C10"
     }
     fn gens(&self, tier: Tier) -> Vec<(&'static str, u64)> {
-        vec![("histories", tier.pick(2400, 60_000))]
+        vec![("histories", tier.pick(24_000, 480_000))]
     }
     fn rule(&self) -> &'static str {
         "case i -> coupling accumulation (i mod 4: add, subtract, multiply, mean), optimizer kind (i/4 mod 5, state sized by set_optimizer), block representation (i/20 mod 2: dense body on a flat shape / convolution+deconvolution body on a spatial shape), loops 1..4, body of 1..3 layers with and without bias, block first / after a layer / followed by a dense layer, batch 1..8, 1..10 learn() calls of which some are exactly one optimizer step (epochs = 1, batch >= N) and some several steps. Invariant checked at every quiescent point (after creation, after installing weights, after EVERY learn() call): all unrolled repetitions of each body layer hold bit-identical weights, biases and kernels; and the `parameters:` line of Display equals the independently computed count with each shared parameter counted once. A panic inside learn() is a violation when it leaves the block partially updated (repetitions no longer identical); panics that leave the block tied are counted separately. Distinct = distinct configuration descriptors."
